@@ -22,6 +22,9 @@ impl<T, const N: usize> SmallVec<[T; N]> {
     pub fn contains(&self, t: &T) -> (r: bool) ensures r == self.view().contains(*t) { unimplemented!() }
     #[verifier::external_body]
     pub fn as_slice(&self) -> (r: &[T]) ensures r@ == self.view() { unimplemented!() }
+    // `v.extend(slice.iter().cloned())` (R8)
+    #[verifier::external_body]
+    pub fn verif_extend_from_slice(&mut self, more: &[T]) ensures final(self).view() == old(self).view() + more@ { unimplemented!() }
     #[verifier::external_body]
     pub fn verif_singleton(t: T) -> (r: Self) ensures r.view() == Seq::<T>::empty().push(t) { unimplemented!() }   // smallvec![t]
 }
@@ -96,8 +99,19 @@ impl ParentReadyTracker {
                 self.connected(#[trigger] self.st(s).ready()[i], s)
         // J2: each (s, b) pair is recorded once
         &&& forall|s: Slot| (#[trigger] self.st(s)).ready().no_duplicates()
+        // J3: each notar-fallback mark is recorded once
+        &&& forall|s: Slot| (#[trigger] self.st(s)).nf().no_duplicates()
         // only finitely many slots are skip-certified
         &&& exists|h: int| self.skip_horizon(h)
+    }
+}
+
+impl ParentReadyTracker {
+    // candidate parent for the windows after `marked`: certified and skip-connected up to and including `marked`
+    pub open spec fn cand(&self, p: BlockId, marked: Slot) -> bool {
+        &&& p.0.0 < marked.0
+        &&& (p.0.0 >= self.root.0 ==> self.nf_has(p))
+        &&& forall|t: Slot| p.0.0 < t.0 <= marked.0 && t.0 >= self.root.0 ==> (#[trigger] self.st(t)).skip
     }
 }
 
@@ -114,10 +128,11 @@ pub proof fn lemma_wf_step(a: ParentReadyTracker, b: ParentReadyTracker)
     requires
         a.wf(), b.root == a.root,
         forall|t: Slot| (#[trigger] b.st(t)).skip == a.st(t).skip,
-        forall|t: Slot, h: BlockHash| a.st(t).nf().contains(h) ==> (#[trigger] b.st(t).nf().contains(h)),
+        forall|t: Slot| (#[trigger] b.st(t)).nf() == a.st(t).nf(),
         forall|t: Slot| (#[trigger] b.st(t)).ready() == a.st(t).ready(),
     ensures b.wf(),
 {
+    assert forall|s: Slot| (#[trigger] b.st(s)).nf().no_duplicates() by { assert(a.st(s).nf().no_duplicates()); }
     let h = choose|h: int| a.skip_horizon(h);
     assert(b.skip_horizon(h));
     assert forall|s: Slot| s.0 >= b.root.0 && (#[trigger] b.st(s)).ready().len() > 0 implies win_start(s) by {
@@ -183,6 +198,16 @@ pub proof fn lemma_wf_extend(a: ParentReadyTracker, b: ParentReadyTracker, id: B
             assert forall|t: Slot| p.0.0 < t.0 < s.0 && t.0 >= b.root.0 implies (#[trigger] b.st(t)).skip by { assert(a.st(t).skip); }
         }
     }
+    assert forall|s: Slot| (#[trigger] b.st(s)).nf().no_duplicates() by {
+        let q = a.st(s).nf();
+        assert(q.no_duplicates());
+        if s == id.0 {
+            assert(!q.contains(id.1));
+            assert forall|i: int, j: int| 0 <= i < q.len() + 1 && 0 <= j < q.len() + 1 && i != j implies q.push(id.1)[i] != q.push(id.1)[j] by {
+                if i == q.len() { assert(q.contains(q[j])); } else if j == q.len() { assert(q.contains(q[i])); }
+            }
+        }
+    }
     assert forall|s: Slot| (#[trigger] b.st(s)).ready().no_duplicates() by {
         let q = a.st(s).ready();
         assert(q.no_duplicates());
@@ -195,11 +220,170 @@ pub proof fn lemma_wf_extend(a: ParentReadyTracker, b: ParentReadyTracker, id: B
     }
 }
 
+impl ParentReadyTracker {
+    // `mid` is `pre` with the skip flag of `marked` newly set
+    pub open spec fn skip_step(pre: ParentReadyTracker, mid: ParentReadyTracker, marked: Slot) -> bool {
+        &&& pre.wf() && mid.root == pre.root && marked.0 >= pre.root.0 && marked.0 < u64::MAX - SLOTS_PER_WINDOW
+        &&& !pre.st(marked).skip
+        &&& forall|t: Slot| (#[trigger] mid.st(t)).nf() == pre.st(t).nf()
+        &&& forall|t: Slot| (#[trigger] mid.st(t)).ready() == pre.st(t).ready()
+        &&& forall|t: Slot| (#[trigger] mid.st(t)).skip == (pre.st(t).skip || t == marked)
+    }
+    pub open spec fn scan_ok(&self, marked: Slot, pp: Seq<BlockId>) -> bool {
+        &&& pp.no_duplicates()
+        &&& forall|i: int| 0 <= i < pp.len() ==> self.cand(#[trigger] pp[i], marked)
+    }
+}
+pub proof fn lemma_wf_skip(pre: ParentReadyTracker, mid: ParentReadyTracker, marked: Slot)
+    requires ParentReadyTracker::skip_step(pre, mid, marked),
+    ensures mid.wf(),
+{
+    let h = choose|h: int| pre.skip_horizon(h);
+    let h2 = if h > marked.0 + 1 { h } else { marked.0 + 1 };
+    assert(mid.skip_horizon(h2));
+    assert forall|s: Slot| (#[trigger] mid.st(s)).nf().no_duplicates() by { assert(pre.st(s).nf().no_duplicates()); }
+    assert forall|s: Slot| (#[trigger] mid.st(s)).ready().no_duplicates() by { assert(pre.st(s).ready().no_duplicates()); }
+    assert forall|s: Slot| s.0 >= mid.root.0 && (#[trigger] mid.st(s)).ready().len() > 0 implies win_start(s) by {
+        assert(pre.st(s).ready().len() > 0);
+    }
+    assert forall|s: Slot, i: int| s.0 >= mid.root.0 && 0 <= i < mid.st(s).ready().len() implies
+        mid.connected(#[trigger] mid.st(s).ready()[i], s) by {
+        let p = pre.st(s).ready()[i];
+        assert(pre.connected(p, s));
+        if p.0.0 >= pre.root.0 { assert(mid.st(p.0).nf() == pre.st(p.0).nf()); }
+        assert forall|t: Slot| p.0.0 < t.0 < s.0 && t.0 >= mid.root.0 implies (#[trigger] mid.st(t)).skip by { assert(pre.st(t).skip); }
+    }
+}
+// backward scan, one slot: its notar-fallback blocks become candidates
+pub proof fn lemma_scan_nf(mid: ParentReadyTracker, marked: Slot, slot: Slot, pp0: Seq<BlockId>, nfs: Seq<BlockHash>, pp: Seq<BlockId>)
+    requires
+        mid.wf(), mid.scan_ok(marked, pp0), slot.0 < marked.0, slot.0 >= mid.root.0,
+        forall|i: int| 0 <= i < pp0.len() ==> (#[trigger] pp0[i]).0.0 > slot.0,
+        nfs == mid.st(slot).nf(),
+        forall|t: Slot| slot.0 < t.0 <= marked.0 && t.0 >= mid.root.0 ==> (#[trigger] mid.st(t)).skip,
+        pp == pp0 + Seq::new(nfs.len(), |x: int| (slot, nfs[x])),
+    ensures
+        mid.scan_ok(marked, pp),
+        forall|i: int| 0 <= i < pp.len() ==> (#[trigger] pp[i]).0.0 >= slot.0,
+{
+    assert(nfs.no_duplicates());
+    assert forall|i: int| 0 <= i < pp.len() implies mid.cand(#[trigger] pp[i], marked) && pp[i].0.0 >= slot.0 by {
+        if i < pp0.len() { assert(pp[i] == pp0[i]); } else {
+            let x = i - pp0.len();
+            assert(pp[i] == (slot, nfs[x]));
+            assert(mid.st(slot).nf().contains(nfs[x]));
+        }
+    }
+    assert forall|i: int, j: int| 0 <= i < pp.len() && 0 <= j < pp.len() && i != j implies pp[i] != pp[j] by {
+        if i < pp0.len() { assert(pp[i] == pp0[i]); } else { assert(pp[i] == (slot, nfs[i - pp0.len()])); }
+        if j < pp0.len() { assert(pp[j] == pp0[j]); } else { assert(pp[j] == (slot, nfs[j - pp0.len()])); }
+    }
+}
+// backward scan, one skip-certified slot: the parents already ready for it become candidates
+pub proof fn lemma_scan_ready(mid: ParentReadyTracker, marked: Slot, slot: Slot, pp0: Seq<BlockId>, rd: Seq<BlockId>, pp: Seq<BlockId>)
+    requires
+        mid.wf(), mid.scan_ok(marked, pp0), slot.0 <= marked.0, slot.0 >= mid.root.0,
+        forall|i: int| 0 <= i < pp0.len() ==> (#[trigger] pp0[i]).0.0 >= slot.0,
+        rd == mid.st(slot).ready(),
+        forall|t: Slot| slot.0 <= t.0 <= marked.0 && t.0 >= mid.root.0 ==> (#[trigger] mid.st(t)).skip,
+        pp == pp0 + rd,
+    ensures
+        mid.scan_ok(marked, pp),
+        rd.len() > 0 ==> win_start(slot),
+{
+    assert(rd.no_duplicates());
+    assert forall|i: int| 0 <= i < pp.len() implies mid.cand(#[trigger] pp[i], marked) by {
+        if i < pp0.len() { assert(pp[i] == pp0[i]); } else {
+            let x = i - pp0.len();
+            assert(pp[i] == rd[x]);
+            assert(mid.connected(mid.st(slot).ready()[x], slot));
+        }
+    }
+    assert forall|i: int, j: int| 0 <= i < pp.len() && 0 <= j < pp.len() && i != j implies pp[i] != pp[j] by {
+        if i < pp0.len() { assert(pp[i] == pp0[i]); } else { assert(pp[i] == rd[i - pp0.len()]); assert(mid.connected(mid.st(slot).ready()[i - pp0.len()], slot)); }
+        if j < pp0.len() { assert(pp[j] == pp0[j]); } else { assert(pp[j] == rd[j - pp0.len()]); assert(mid.connected(mid.st(slot).ready()[j - pp0.len()], slot)); }
+    }
+}
+// no candidate is already ready for a later window start (the newly skipped slot lay in between)
+pub proof fn lemma_not_yet(pre: ParentReadyTracker, mid: ParentReadyTracker, marked: Slot, pp: Seq<BlockId>, slot: Slot)
+    requires ParentReadyTracker::skip_step(pre, mid, marked), mid.scan_ok(marked, pp), slot.0 > marked.0,
+    ensures forall|x: int| 0 <= x < pp.len() ==> !mid.st(slot).ready().contains(#[trigger] pp[x]),
+{
+    assert forall|x: int| 0 <= x < pp.len() implies !mid.st(slot).ready().contains(#[trigger] pp[x]) by {
+        let q = pre.st(slot).ready();
+        assert(mid.st(slot).ready() == q);
+        assert(mid.cand(pp[x], marked));
+        if q.contains(pp[x]) {
+            let i = choose|i: int| 0 <= i < q.len() && q[i] == pp[x];
+            assert(pre.connected(pre.st(slot).ready()[i], slot));
+            assert(pre.st(marked).skip);
+        }
+    }
+}
+// wf after the forward propagation of `mark_skipped`
+pub proof fn lemma_wf_extend2(a: ParentReadyTracker, b: ParentReadyTracker, marked: Slot, pp: Seq<BlockId>, last: Slot)
+    requires
+        a.wf(), b.root == a.root, marked.0 >= a.root.0, a.st(marked).skip, a.scan_ok(marked, pp), last.0 >= marked.0,
+        forall|t: Slot| (#[trigger] b.st(t)).skip == a.st(t).skip,
+        forall|t: Slot| (#[trigger] b.st(t)).nf() == a.st(t).nf(),
+        forall|t: Slot| marked.0 < t.0 < last.0 ==> (#[trigger] a.st(t)).skip,
+        forall|t: Slot, x: int| marked.0 < t.0 <= last.0 && win_start(t) && 0 <= x < pp.len() ==> !(#[trigger] a.st(t).ready().contains(pp[x])),
+        forall|t: Slot| (#[trigger] b.st(t)).ready() ==
+            (if marked.0 < t.0 <= last.0 && win_start(t) { a.st(t).ready() + pp } else { a.st(t).ready() }),
+    ensures
+        b.wf(),
+        forall|t: Slot, x: int| marked.0 < t.0 <= last.0 && win_start(t) && 0 <= x < pp.len() ==>
+            #[trigger] b.connected(pp[x], t) && b.st(t).ready().contains(pp[x]),
+{
+    let h = choose|h: int| a.skip_horizon(h);
+    assert(b.skip_horizon(h));
+    assert forall|s: Slot| (#[trigger] b.st(s)).nf().no_duplicates() by { assert(a.st(s).nf().no_duplicates()); }
+    assert forall|t: Slot, x: int| marked.0 < t.0 <= last.0 && win_start(t) && 0 <= x < pp.len() implies
+            #[trigger] b.connected(pp[x], t) && b.st(t).ready().contains(pp[x]) by {
+        let q = a.st(t).ready();
+        assert((q + pp)[q.len() + x] == pp[x]);
+        assert(a.cand(pp[x], marked));
+        if pp[x].0.0 >= a.root.0 { assert(b.st(pp[x].0).nf() == a.st(pp[x].0).nf()); }
+        assert forall|u: Slot| pp[x].0.0 < u.0 < t.0 && u.0 >= b.root.0 implies (#[trigger] b.st(u)).skip by { assert(a.st(u).skip); }
+    }
+    assert forall|s: Slot| s.0 >= b.root.0 && (#[trigger] b.st(s)).ready().len() > 0 implies win_start(s) by {
+        if !(marked.0 < s.0 <= last.0 && win_start(s)) { assert(a.st(s).ready().len() > 0); }
+    }
+    assert forall|s: Slot, i: int| s.0 >= b.root.0 && 0 <= i < b.st(s).ready().len() implies
+        b.connected(#[trigger] b.st(s).ready()[i], s) by {
+        let q = a.st(s).ready();
+        if marked.0 < s.0 <= last.0 && win_start(s) && i >= q.len() {
+            assert(b.st(s).ready()[i] == pp[i - q.len()]);
+        } else {
+            let p = q[i];
+            assert(p == b.st(s).ready()[i]);
+            assert(a.connected(a.st(s).ready()[i], s));
+            if p.0.0 >= a.root.0 { assert(b.st(p.0).nf() == a.st(p.0).nf()); }
+            assert forall|t: Slot| p.0.0 < t.0 < s.0 && t.0 >= b.root.0 implies (#[trigger] b.st(t)).skip by { assert(a.st(t).skip); }
+        }
+    }
+    assert forall|s: Slot| (#[trigger] b.st(s)).ready().no_duplicates() by {
+        let q = a.st(s).ready();
+        assert(q.no_duplicates());
+        if marked.0 < s.0 <= last.0 && win_start(s) {
+            let z = q + pp;
+            assert forall|i: int, j: int| 0 <= i < z.len() && 0 <= j < z.len() && i != j implies z[i] != z[j] by {
+                if i < q.len() && j >= q.len() { assert(q.contains(q[i])); assert(z[j] == pp[j - q.len()]); }
+                if j < q.len() && i >= q.len() { assert(q.contains(q[j])); assert(z[i] == pp[i - q.len()]); }
+            }
+        }
+    }
+}
+
 pub mod code {
 use super::*;
 broadcast use super::axiom_default_state;
 
 impl ParentReadyState {
+    // R8: `self.notar_fallbacks.iter().cloned()` (the body of `notar_fallback_blocks`, an `impl Iterator`) seen as the
+    // slice it iterates over.  TRUSTED.
+    #[verifier::external_body]
+    pub fn verif_nf_slice(&self) -> (r: &[BlockHash]) ensures r@ == self.nf() { unimplemented!() }
 /*@ extract src/consensus/pool/parent_ready_tracker/parent_ready_state.rs :: impl ParentReadyState/fn mark_skip
 props C07
 ret r
@@ -256,6 +440,22 @@ requires
         self.0 < u64::MAX,
 ensures
         r.0 == self.0 + 1,
+@*/
+/*@ extract src/types/slot.rs :: impl Slot/fn new
+ret r
+ensures
+        r.0 == slot,
+@*/
+/*@ extract src/types/slot.rs :: impl Slot/fn inner
+ret r
+ensures
+        r == self.0,
+@*/
+/*@ extract src/types/slot.rs :: impl Slot/fn first_slot_in_window
+ret r
+ensures
+        r.0 <= self.0 < r.0 + SLOTS_PER_WINDOW,
+        win_start(r),
 @*/
     // `self.0.is_multiple_of(SLOTS_PER_WINDOW)`: TRUSTED documented behaviour of u64::is_multiple_of
     #[verifier::external_body]
@@ -339,6 +539,149 @@ loop 0
             forall|i: int| 0 <= i < newly_certified.view().len() ==> (#[trigger] newly_certified.view()[i]).1 == *id
                 && id.0.0 < newly_certified.view()[i].0.0 <= verif_it.0 && win_start(newly_certified.view()[i].0),
         decreases hz - verif_it.0,
+@*/
+
+/*@ extract src/consensus/pool/parent_ready_tracker.rs :: impl ParentReadyTracker/fn mark_skipped
+props C07
+ret r
+rewrite*[R9] `parent.clone()` => `verif_clone_block_id(parent)`
+rewrite[R4] `let window_slots = marked_slot.slots_in_window();` => `let verif_first: u64 = marked_slot.first_slot_in_window().inner();`
+rewrite[R4] `for slot in window_slots .filter(|s|` => `let mut verif_k: u64 = verif_first + SLOTS_PER_WINDOW; while verif_k > verif_first { verif_k -= 1; let slot = Slot::new(verif_k); let s = &slot; if !(`
+rewrite[R4] `) .rev() {` => `) { continue; }`
+rewrite[R4] `for nf in state.notar_fallback_blocks() {` => `let verif_nfs = state.verif_nf_slice(); let mut verif_j: usize = 0; while verif_j < verif_nfs.len() { let nf = verif_nfs[verif_j].clone(); verif_j += 1;`
+rewrite[R8] `potential_parents.extend(state.ready_block_ids().iter().cloned());` => `potential_parents.verif_extend_from_slice(state.ready_block_ids());`
+rewrite[R4] `for slot in marked_slot.future_slots() {` => `let mut verif_it = marked_slot; loop { verif_it = verif_it.next(); let slot = verif_it;`
+rewrite[R4] `for parent in &potential_parents {` => `let verif_pp = potential_parents.as_slice(); let mut verif_i: usize = 0; while verif_i < verif_pp.len() { let parent = &verif_pp[verif_i]; verif_i += 1;`
+rewrite[R10] `let mut newly_certified = SmallVec::new();` => `let mut newly_certified = SmallVec::<[(Slot, BlockId); 1]>::new();`
+requires
+        old(self).wf(),
+        // slot numbers stay clear of u64::MAX (machine arithmetic; `slots_in_window` / `future_slots` would overflow too)
+        marked_slot.0 < u64::MAX - SLOTS_PER_WINDOW,
+ensures
+        final(self).wf(),
+        final(self).root == old(self).root,
+        // [C07.announced_exactly_the_newly_ready_pairs]
+        forall|i: int| 0 <= i < r.view().len() ==> r.view()[i].0.0 > marked_slot.0
+            && win_start(r.view()[i].0) && final(self).connected((#[trigger] r.view()[i]).1, r.view()[i].0)
+            && !old(self).st(r.view()[i].0).ready().contains(r.view()[i].1) && final(self).st(r.view()[i].0).ready().contains(r.view()[i].1),
+        // notar-fallback marks never change here; only this slot's skip flag is set
+        forall|t: Slot| (#[trigger] final(self).st(t)).nf() == old(self).st(t).nf(),
+        forall|t: Slot| (#[trigger] final(self).st(t)).skip == (old(self).st(t).skip || (t == marked_slot && marked_slot.0 >= old(self).root.0)),
+before `if marked_slot < self.root {`
+        let ghost pre = *old(self);
+        let ghost hz = choose|h: int| pre.skip_horizon(h);
+before `if !state.mark_skip() {`
+        let ghost st0 = *state;
+before `return SmallVec::new();#1`
+        let ghost st1 = *state;
+        proof { lemma_frame(pre, *self, marked_slot, st1); lemma_wf_step(pre, *self); }
+before `let mut potential_parents = SmallVec::<[BlockId; 1]>::new();`
+        let ghost mid = *self;
+        proof {
+            lemma_frame(pre, mid, marked_slot, mid.st(marked_slot));
+            assert(!pre.st(marked_slot).skip && mid.st(marked_slot).skip);
+            assert(Self::skip_step(pre, mid, marked_slot));
+            lemma_wf_skip(pre, mid, marked_slot);
+        }
+loop 0
+        invariant_except_break
+            forall|t: Slot| verif_k <= t.0 <= marked_slot.0 && t.0 >= root.0 ==> (#[trigger] mid.st(t)).skip,
+        invariant
+            Self::skip_step(pre, mid, marked_slot) && mid.wf() && pre == *old(self),
+            self.root == pre.root && root == pre.root,
+            verif_first <= marked_slot.0 < verif_first + SLOTS_PER_WINDOW && verif_first % SLOTS_PER_WINDOW == 0,
+            verif_first <= verif_k <= verif_first + SLOTS_PER_WINDOW,
+            forall|t: Slot| #[trigger] self.st(t) == mid.st(t),
+            mid.scan_ok(marked_slot, potential_parents.view()),
+            verif_k > verif_first ==> forall|i: int| 0 <= i < potential_parents.view().len() ==> (#[trigger] potential_parents.view()[i]).0.0 >= verif_k,
+        decreases verif_k,
+after `let state = self.slot_state(slot);#0`
+        let ghost fin = *state;
+        let ghost pp0 = potential_parents.view();
+before `let state = self.slot_state(slot);#0`
+        let ghost bef = *self;
+loop 1
+        invariant
+            verif_j <= verif_nfs@.len(),
+            potential_parents.view() == pp0 + Seq::new(verif_j as nat, |x: int| (slot, verif_nfs@[x])),
+        decreases verif_nfs@.len() - verif_j,
+before `if !state.is_skip_certified() {#0`
+        let ghost pp1 = potential_parents.view();
+        proof {
+            if slot != marked_slot {
+                lemma_scan_nf(mid, marked_slot, slot, pp0, fin.nf(), pp1);
+            }
+        }
+before `break;#0`
+        proof { lemma_frame(bef, *self, slot, fin); }
+blockend `if !state.is_skip_certified() {#0`
+        proof {
+            lemma_frame(bef, *self, slot, fin);
+            lemma_scan_ready(mid, marked_slot, slot, pp1, fin.ready(), potential_parents.view());
+            if verif_k > verif_first {
+                assert(!win_start(slot)) by (nonlinear_arith)
+                    requires verif_first % SLOTS_PER_WINDOW == 0, verif_first < slot.0 < verif_first + SLOTS_PER_WINDOW, SLOTS_PER_WINDOW > 0 {}
+                assert(potential_parents.view() =~= pp1);
+            }
+        }
+before `let mut newly_certified = SmallVec::<[(Slot, BlockId); 1]>::new();`
+        let ghost pp = potential_parents.view();
+        let ghost scan = *self;
+        let ghost hz2 = choose|h: int| mid.skip_horizon(h);
+loop 2
+        invariant_except_break
+            verif_it.0 > marked_slot.0 ==> mid.st(verif_it).skip,
+        invariant
+            Self::skip_step(pre, mid, marked_slot) && mid.wf() && mid.skip_horizon(hz2) && pre == *old(self),
+            self.root == pre.root,
+            potential_parents.view() == pp && mid.scan_ok(marked_slot, pp),
+            verif_it.0 >= marked_slot.0,
+            forall|t: Slot| (#[trigger] self.st(t)).skip == mid.st(t).skip,
+            forall|t: Slot| (#[trigger] self.st(t)).nf() == mid.st(t).nf(),
+            forall|t: Slot| marked_slot.0 < t.0 < verif_it.0 ==> (#[trigger] mid.st(t)).skip,
+            forall|t: Slot| (#[trigger] self.st(t)).ready() ==
+                (if marked_slot.0 < t.0 <= verif_it.0 && win_start(t) { mid.st(t).ready() + pp } else { mid.st(t).ready() }),
+            forall|i: int| 0 <= i < newly_certified.view().len() ==> pp.contains((#[trigger] newly_certified.view()[i]).1)
+                && marked_slot.0 < newly_certified.view()[i].0.0 <= verif_it.0 && win_start(newly_certified.view()[i].0),
+        decreases hz2 - verif_it.0,
+before `let state = self.slot_state(slot);#1`
+        let ghost bef2 = *self;
+        let ghost nc0 = newly_certified.view();
+after `let state = self.slot_state(slot);#1`
+        let ghost r0 = state.ready();
+        let ghost fin0 = *state;
+        proof { lemma_not_yet(pre, mid, marked_slot, pp, slot); }
+loop 3
+        invariant
+            verif_i <= verif_pp@.len() && verif_pp@ == pp && pp.no_duplicates(),
+            forall|x: int| 0 <= x < pp.len() ==> !r0.contains(#[trigger] pp[x]),
+            state.ready() == r0 + pp.subrange(0, verif_i as int),
+            state.skip == fin0.skip && state.notar_fallbacks == fin0.notar_fallbacks,
+            newly_certified.view() == nc0 + Seq::new(verif_i as nat, |x: int| (slot, pp[x])),
+        decreases verif_pp@.len() - verif_i,
+before `state.add_to_ready(verif_clone_block_id(parent));`
+        proof {
+            let cur = r0 + pp.subrange(0, verif_i - 1);
+            if cur.contains(*parent) {
+                let z = choose|z: int| 0 <= z < cur.len() && cur[z] == *parent;
+                if z < r0.len() { assert(r0.contains(r0[z])); } else { assert(cur[z] == pp[z - r0.len()]); }
+            }
+        }
+blockend `state.add_to_ready(verif_clone_block_id(parent));`
+        proof {
+            assert(state.ready() =~= r0 + pp.subrange(0, verif_i as int));
+            assert(newly_certified.view() =~= nc0 + Seq::new(verif_i as nat, |x: int| (slot, pp[x])));
+        }
+before `if !state.is_skip_certified() {#1`
+        let ghost fin2 = *state;
+before `break;#1`
+        proof { lemma_frame(bef2, *self, slot, fin2); assert(pp.subrange(0, pp.len() as int) =~= pp); }
+blockend `if !state.is_skip_certified() {#1`
+        proof { lemma_frame(bef2, *self, slot, fin2); assert(pp.subrange(0, pp.len() as int) =~= pp); }
+before `newly_certified }`
+        proof {
+            lemma_wf_extend2(mid, *self, marked_slot, pp, verif_it);
+        }
 @*/
 }
 
